@@ -22,7 +22,7 @@ def reachable_min_eig(A, v):
     return lam, (lam[idx[0]] if len(idx) else lam[0]), ov
 
 
-def check_eigh(ctx, A, v, m, kd, detail_extra=None):
+def check_eigh(ctx, A, v, m, kd, detail_extra=None, style=None):
     n = len(v)
     nA = max(np.linalg.norm(A, 2), 1e-300)
     detail = {'A': A, 'v': v, 'm': m}
@@ -36,7 +36,10 @@ def check_eigh(ctx, A, v, m, kd, detail_extra=None):
     v0 = v.copy()
     with monitor.attached('pytenet.krylov.lanczos_iteration', around), warnings.catch_warnings():
         warnings.simplefilter('ignore')
-        w, u = ptn.eigh_krylov(lambda x: A @ x, v, m, numeig)
+        Af, style, _ = kr.make_callable(np.random.default_rng(n * 977 + m), A, style)
+        ctx.event('callable_style:' + style)
+        detail['callable_style'] = style
+        w, u = ptn.eigh_krylov(Af, v, m, numeig)
     w = np.asarray(w)
     u = np.asarray(u)
     ctx.ok('eigh.start-unmodified', np.array_equal(v, v0), 'start vector modified', detail)
@@ -59,6 +62,10 @@ def check_eigh(ctx, A, v, m, kd, detail_extra=None):
         ctx.event('eigh_exhausted_converged_class' if ind < COND else 'eigh_exhausted_conditioned_class')
         ctx.close('eigh.exhausted-reaches-min-reachable', dev, 1e-8,
                   f'Krylov space exhausted (dim {kd} <= m={m}) but Ritz value {w[0]} > smallest reachable eigenvalue {lam_reach}', detail)
+        # ... and the lowest Ritz vector is a unit vector. (That it is an eigenvector was tried and dropped: when the iteration continues past a numerically
+        # exhausted space, rounding noise opens directions outside the reachable subspace and the lowest Ritz PAIR may be an unconverged approximation of an
+        # eigenpair there -- residuals 1e-7..5e-2 on the unchanged tree; the statement speaks about the Ritz VALUE only.)
+        ctx.close('eigh.exhausted-ritz-vector-unit-norm', abs(np.linalg.norm(u[:, 0]) - 1), 1e-8, 'lowest Ritz vector of an exhausted Krylov space is not normalised', detail)
         ctx.event('eigh_exhausted')
     elif k is not None:
         al, be, V = captured['out']
@@ -83,14 +90,17 @@ def long_dt(rng):
     return float(rng.choice([rng.uniform(0.05, 1.0), rng.uniform(0.05, 1.0), rng.uniform(1.0, np.pi), rng.uniform(np.pi, 4 * np.pi), np.pi, 2 * np.pi, 7.5, 31.0]))
 
 
-def check_expm(ctx, A, v, dt, m, kd_h, hermitian):
+def check_expm(ctx, A, v, dt, m, kd_h, hermitian, style=None):
     n = len(v)
     nA = max(np.linalg.norm(A, 2), 1e-300)
     detail = {'A': A, 'v': v, 'm': m, 'dt': dt, 'hermitian': hermitian}
     v0 = v.copy()
     with warnings.catch_warnings():
         warnings.simplefilter('ignore')
-        r = ptn.expm_krylov(lambda x: A @ x, v, dt, m, hermitian=hermitian)
+        Af, style, _ = kr.make_callable(np.random.default_rng(n * 991 + m + int(hermitian)), A, style)
+        ctx.event('callable_style:' + style)
+        detail['callable_style'] = style
+        r = ptn.expm_krylov(Af, v, dt, m, hermitian=hermitian)
     r = np.asarray(r)
     tag = 'expm-h' if hermitian else 'expm-g'
     ctx.ok(f'{tag}.start-unmodified', np.array_equal(v, v0), 'start vector modified', detail)
@@ -148,6 +158,13 @@ def grid_case(ctx, idx, rng):
         kd_use = kd
     check_eigh(ctx, A, v, m, kd_use if not amb else 10**9)
     check_expm(ctx, A, v, dt, m, kd_use, hermitian=True)
+    if idx % 9 == 4:
+        # the identity map handed over as `lambda x: x` (returns its argument / a view of it): Krylov dimension 1, everything exact
+        I = np.identity(n)
+        ctx.case(('identity-map-returning-its-argument', f'm{min(m, 3)}', dtk), sample={'n': n, 'm': m, 'dt': dt})
+        check_eigh(ctx, I, v, m, 1, style='argument-when-identity')
+        check_expm(ctx, I, v, dt, m, 1, hermitian=True, style='argument-when-identity')
+        check_expm(ctx, I, v, dt, m, 1, hermitian=False, style='argument-when-identity')
     check_expm(ctx, A, v, dt, m, kd_use, hermitian=False)
     if idx % 4 == 0:
         # history: the same vector / matrix objects changed in place and used again
